@@ -61,6 +61,27 @@ fn utf16_line_lens(text: &str) -> Vec<usize> {
     text.split('\n').map(|l| l.encode_utf16().count()).collect()
 }
 
+/// per generated line, the UTF-16 columns at which an identifier-like word starts (purely lexical: a word character not preceded by one)
+fn ident_starts(text: &str) -> Vec<Vec<usize>> {
+    let is_word = |c: char| c.is_ascii_alphanumeric() || c == '_' || c == '$';
+    text.split('\n')
+        .map(|l| {
+            let mut out = vec![];
+            let mut col = 0usize;
+            let mut prev_word = false;
+            for c in l.chars() {
+                let w = is_word(c);
+                if w && !prev_word && !c.is_ascii_digit() {
+                    out.push(col);
+                }
+                prev_word = w;
+                col += c.len_utf16();
+            }
+            out
+        })
+        .collect()
+}
+
 fn cps(s: &str) -> Vec<u32> {
     s.chars().map(|c| c as u32).collect()
 }
@@ -74,7 +95,7 @@ fn map_record(gen_rel: &str, gen_text: &str, map_text: &str) -> Value {
     if !(m["version"].is_i64() && strings_ok(&m["sources"]) && strings_ok(&m["names"]) && m["mappings"].is_string()) {
         return json!({"gen": comps(gen_rel), "lineLens": utf16_line_lens(gen_text), "map": {"k": "bad-shape"}});
     }
-    json!({"gen": comps(gen_rel), "lineLens": utf16_line_lens(gen_text),
+    json!({"gen": comps(gen_rel), "lineLens": utf16_line_lens(gen_text), "identStarts": ident_starts(gen_text),
            "map": {"k": "ok", "version": m["version"], "mappings": cps(m["mappings"].as_str().unwrap()),
                    "sources": m["sources"].as_array().unwrap().iter().map(|s| json!(comps(s.as_str().unwrap()))).collect::<Vec<_>>(),
                    "sourcesRaw": m["sources"], "names": m["names"],
